@@ -1373,7 +1373,31 @@ class _Conformer2:
         self.listener(new)
 
 
-def _compile(filename, tree, freevars):
+def _private_class(fn, tree):
+    """Name of the class in which the private names of fn are mangled.
+
+    Returns None if fn is not defined in a class or uses no private name
+    (``__name``), which is the usual case.
+    """
+    parts = fn.__qualname__.split(".")[:-1]
+    while parts and parts[-1] == "<locals>":
+        # Defined in a function, which may itself be defined in a class
+        parts = parts[:-2]
+    if not parts:
+        return None
+    for node in ast.walk(tree):
+        for field in ("id", "attr", "arg", "name", "asname"):
+            name = getattr(node, field, None)
+            if (
+                isinstance(name, str)
+                and name.startswith("__")
+                and not name.endswith("__")
+            ):
+                return parts[-1]
+    return None
+
+
+def _compile(filename, tree, freevars, classname=None):
     if freevars:
         if sys.version_info >= (3, 8, 0):  # pragma: no cover
             kwargs = {"posonlyargs": []}
@@ -1394,6 +1418,20 @@ def _compile(filename, tree, freevars):
                 body=[tree, ast.Return(ast.Name(id=tree.name, ctx=ast.Load()))],
                 decorator_list=[],
                 returns=tree.returns,
+            ),
+            tree,
+        )
+        ast.fix_missing_locations(tree)
+
+    if classname is not None:
+        # Private names (__name) are mangled with the name of the class
+        tree = ast.copy_location(
+            ast.ClassDef(
+                name=classname,
+                bases=[],
+                keywords=[],
+                body=[tree],
+                decorator_list=[],
             ),
             tree,
         )
@@ -1558,6 +1596,17 @@ def transform(fn, proceed, to_instrument=True, set_conformer=True):
     glb.update(
         {name: value for name, value in lib.values() if value is not None}
     )
+    classname = _private_class(fn, tree)
+    if classname is not None:
+        # The names of the library are private names too
+        prefix = "_" + classname.lstrip("_")
+        glb.update(
+            {
+                prefix + name: value
+                for name, value in lib.values()
+                if value is not None and name.startswith("__")
+            }
+        )
 
     transformer = PteraTransformer(
         tree=tree,
@@ -1572,7 +1621,7 @@ def transform(fn, proceed, to_instrument=True, set_conformer=True):
     _, lineno = inspect.getsourcelines(fn)
     ast.increment_lineno(new_tree, lineno - 1)
     freevars = fn.__code__.co_freevars
-    module_code = _compile(filename, new_tree, freevars)
+    module_code = _compile(filename, new_tree, freevars, classname)
 
     def _find_code(code, name):
         for const in code.co_consts:
@@ -1589,7 +1638,11 @@ def transform(fn, proceed, to_instrument=True, set_conformer=True):
     # register the new code under the path of a top-level function of the
     # file in codefind's registry.
     fname = fn.__name__
-    holder = _find_code(module_code, "#WRAP") if freevars else module_code
+    holder = module_code
+    if classname is not None:
+        holder = _find_code(holder, classname)
+    if freevars:
+        holder = _find_code(holder, "#WRAP")
     new_code = _find_code(holder, fname)
     cells = dict(zip(fn.__code__.co_freevars, fn.__closure__ or ()))
     actual_fn = types.FunctionType(
